@@ -327,11 +327,36 @@ func (p *Program) addRecursion() {
 		target = &TypeRef{Ref: &Ref{td.File, td.Name}}
 		shape = append(shape, td.Name)
 	}
-	switch ch("rec.wrap", 4) {
+	var keyed *ConstVal // for a map with a named key type: a literal `{key: []}` that is a valid default
+	switch ch("rec.wrap", 5) {
 	case 1:
 		target = &TypeRef{Base: "list", Elem: target}
 	case 2:
 		target = &TypeRef{Base: "map", Key: &TypeRef{Base: "string"}, Elem: target}
+	case 4:
+		// a typedef of a map whose key is a named type and whose values are lists of the
+		// struct: `typedef map<Color, list<S>> Rm; struct S {1: optional Rm kids = {1: []}}`
+		key := &TypeRef{Base: "string"}
+		lit := &ConstVal{Kind: CString, Str: "k"}
+		var enums []*Def
+		for _, d := range p.visible(f, KEnum) {
+			if len(d.Items) > 0 {
+				enums = append(enums, d)
+			}
+		}
+		if len(enums) > 0 && simrt.Flip("rec.key-enum", 0.7) {
+			e := enums[ch("rec.key-enum-pick", len(enums))]
+			key = &TypeRef{Ref: &Ref{e.File, e.Name}}
+			lit = &ConstVal{Kind: CInt, Int: int64(e.Items[ch("rec.key-item", len(e.Items))].Value)}
+		} else {
+			td := p.add(f, &Def{Kind: KTypedef, Name: p.name("Tk"), Type: &TypeRef{Base: "string"}})
+			key = &TypeRef{Ref: &Ref{td.File, td.Name}}
+		}
+		m := &TypeRef{Base: "map", Key: key, Elem: &TypeRef{Base: "list", Elem: target}}
+		td := p.add(f, &Def{Kind: KTypedef, Name: p.name("Rm"), Type: m})
+		target = &TypeRef{Ref: &Ref{td.File, td.Name}}
+		shape = append(shape, td.Name)
+		keyed = &ConstVal{Kind: CMap, Items: []*ConstVal{lit, {Kind: CList}}}
 	case 3:
 		// through a second struct
 		back := &FieldDef{ID: 1, Name: "back1", Req: ReqOptional, Type: target}
@@ -363,6 +388,9 @@ func (p *Program) addRecursion() {
 		}
 	}
 	self := &FieldDef{ID: id, Name: fmt.Sprintf("self%d", id), Req: ReqOptional, Type: target}
+	if keyed != nil && simrt.Flip("rec.keyed-default", 0.6) {
+		self.Default = keyed
+	}
 	if p.recDefaults && n > 0 && (target.Base == "list" || target.Base == "map") && simrt.Flip("rec.container-default", 0.2) {
 		// `typedef S Rt; struct S {1: optional list<Rt> kids = []}`: an empty container default
 		// on the recursive member itself (same early cast as F6 when Rt is linked first)
@@ -575,7 +603,15 @@ func (p *Program) retarget(f *File, d *Def, text string, to *Def) {
 // injectInvalid makes the program uncompilable in one place.
 func (p *Program) injectInvalid() {
 	f := p.Files[ch("invalid.file", len(p.Files))]
-	switch ch("invalid.kind", 14) {
+	switch ch("invalid.kind", 15) {
+	case 14:
+		// a struct constant referred to where another struct with an incompatible field of the same name is declared
+		a := p.add(f, &Def{Kind: KStruct, Name: p.name("S"), Fields: []*FieldDef{{ID: 1, Name: "v", Req: ReqOptional, Type: &TypeRef{Base: "string"}}}})
+		b := p.add(f, &Def{Kind: KStruct, Name: p.name("S"), Fields: []*FieldDef{{ID: 1, Name: "v", Req: ReqOptional, Type: &TypeRef{Base: "i32"}}}})
+		ca := p.add(f, &Def{Kind: KConst, Name: p.name("C"), Type: &TypeRef{Ref: &Ref{a.File, a.Name}},
+			Value: &ConstVal{Kind: CStruct, Items: []*ConstVal{{Kind: CString, Str: "v"}, {Kind: CString, Str: "text"}}}})
+		p.add(f, &Def{Kind: KConst, Name: p.name("C"), Type: &TypeRef{Ref: &Ref{b.File, b.Name}}, Value: &ConstVal{Kind: CRef, Ref: &Ref{ca.File, ca.Name}}})
+		p.Invalid = "constant of struct " + a.Name + " used where struct " + b.Name + " is declared in " + f.RelPath()
 	case 12, 13:
 		var enums []*Def
 		for _, d := range f.Defs {
